@@ -63,6 +63,7 @@ class Ctx:
         wd = os.path.join(self.workdir, "tlc_%d" % len(self.cov["tlc_runs"]))
         os.makedirs(wd, exist_ok=True)
         kw.setdefault("coverage", True)
+        keep = kw.pop("keep", False)
         res = tlcmod.run(module, cfg_text, wd, **kw)
         self.cov["states"] += res.distinct
         self.cov["transitions"] += res.generated
@@ -80,7 +81,7 @@ class Ctx:
                 "errors": len(res.errors),
             }
         )
-        if not kw.get("keep"):
+        if not keep:
             shutil.rmtree(wd, ignore_errors=True)
         return res
 
